@@ -356,6 +356,7 @@ def run_G(pid, tier, seed):
                 if len(ids_) <= 9 else False:
             stats["shared_descendants"] += 1
         want_cp = spec_cp(preds, prio)
+        prio0 = list(prio)
         qlines = ["cp"]
         meta = [("cp", dict(real=[d.graph_ids.compound_priority[x] for x in ids_], where="whole-dag"))]
         stats["cp_tables"] += 1
@@ -461,7 +462,7 @@ def run_G(pid, tier, seed):
             elif real[0] == "VALUEERROR":
                 stats["valueerrors"] += 1
         G.set_debug(False)
-        blocks.append(G.graph_block("q%d" % k, preds, prio if pid not in ("C06", "C07") else [d.exec_nodes[x].priority for x in ids_] if False else prio, debug, qlines))
+        blocks.append(G.graph_block("q%d" % k, preds, prio0, debug, qlines))
         queries.append(("q%d" % k, meta, sc))
         if len(samples) < 3:
             samples.append(dict(scenario=sc, protocol=blocks[-1].splitlines()))
